@@ -470,6 +470,7 @@ type FnContract struct {
 	Pure      bool
 	PureHeap  bool
 	NoPanic   bool
+	NoPanicOwn bool // safety obligations for the function's own instructions only; callee panics are assumptions
 	Loops     map[int]*LoopSpec
 	CallAsserts []CallAssert
 	Asserts   []CallAssert // reserved
@@ -498,7 +499,14 @@ type GhostVar struct {
 	Sort string
 }
 
+type ConstGlobal struct {
+	Name string
+	Pkg  string
+	Inv  Clause
+}
+
 type Contracts struct {
+	ConstGlobals map[string]*ConstGlobal // key: pkgKey + "." + name
 	Fns     map[string]*FnContract
 	Order   []string
 	Defines map[string]*Define
@@ -518,7 +526,7 @@ type UFDecl struct {
 var clauseKeywords = map[string]bool{
 	"func": true, "extern": true, "interface": true, "requires": true, "ensures": true, "let": true,
 	"modifies": true, "nopanic": true, "pure": true, "pureheap": true, "loop": true, "at": true, "ghost": true,
-	"define": true, "lemma": true, "ghost_ensures": true, "cover": true, "props": true, "uf": true, "params": true,
+	"define": true, "lemma": true, "const_global": true, "ghost_ensures": true, "cover": true, "props": true, "uf": true, "params": true,
 }
 
 // parseContractFile reads the //@ lines of one file.
@@ -675,6 +683,9 @@ func (cs *Contracts) parseContractFile(path string, pkg string) error {
 			cur.Modifies = append(cur.Modifies, items...)
 		case "nopanic":
 			cur.NoPanic = true
+			if rest == "own" {
+				cur.NoPanicOwn = true
+			}
 		case "pure":
 			cur.Pure = true
 		case "pureheap":
@@ -745,6 +756,12 @@ func (cs *Contracts) parseContractFile(path string, pkg string) error {
 				c.Label = fmt.Sprintf("a%d", len(cur.CallAsserts))
 			}
 			cur.CallAsserts = append(cur.CallAsserts, CallAssert{Pattern: pat, When: when, Clause: c})
+		case "const_global":
+			c, err := labelled(rest)
+			if err != nil {
+				return err
+			}
+			cs.ConstGlobals[pkgKey(pkg)+"."+c.Label] = &ConstGlobal{Name: c.Label, Pkg: pkg, Inv: c}
 		case "ghost":
 			// ghost var name Sort
 			if len(fs) != 4 || fs[1] != "var" {
@@ -883,7 +900,7 @@ func parseModifies(src string) ([]ModItem, bool, error) {
 
 // contract files: /repo/<pkg>/zz_contracts_verif.go, fallback /verif/contracts/<pkg>.go
 func loadContracts(repoDir, mirrorDir string, pkgs []string) (*Contracts, error) {
-	cs := &Contracts{Fns: map[string]*FnContract{}, Defines: map[string]*Define{}, Ghosts: map[string]*GhostVar{}, UFs: map[string]*UFDecl{}, Source: map[string]string{}}
+	cs := &Contracts{ConstGlobals: map[string]*ConstGlobal{}, Fns: map[string]*FnContract{}, Defines: map[string]*Define{}, Ghosts: map[string]*GhostVar{}, UFs: map[string]*UFDecl{}, Source: map[string]string{}}
 	// shared prelude + dependency contracts live in the mirror only
 	for _, f := range []string{"prelude.spec", "deps.spec"} {
 		p := filepath.Join(mirrorDir, f)
